@@ -59,6 +59,13 @@ fn pool() -> Vec<(String, Tpl, &'static str)> {
     add("leaf.html", t(Some("kid.html"), vec![blk("y", vec![Text(35), Super])]), "grandchild");
     add("base.html", t(None, vec![Text(7), blk("y", vec![Text(8), blk("z", vec![Text(9), Var])])]), "root-v2-same-length-as-root-v2");
     add("leaf.html", t(Some("kid.html"), vec![blk("y", vec![Text(36), Super])]), "grandchild-same-length");
+    // replacements that CHANGE the parent chain of templates with descendants at distance >= 2
+    // (re-parenting a root or a middle template, closing a cycle through a deep descendant)
+    add("root0.html", t(None, vec![Text(40), blk("y", vec![Text(41)]), Text(42)]), "second-root");
+    add("base.html", t(Some("root0.html"), vec![blk("y", vec![Text(43), Super])]), "root-becomes-child-of-second-root");
+    add("kid.html", t(Some("root0.html"), vec![blk("y", vec![Text(44), Super])]), "child-reparented");
+    add("root0.html", t(Some("leaf.html"), vec![blk("y", vec![Text(45)])]), "second-root-extends-deep-descendant");
+    add("tip.html", t(Some("leaf.html"), vec![blk("y", vec![Text(46), Super])]), "great-grandchild");
     p
 }
 
@@ -388,6 +395,9 @@ fn main() {
             exhaustive += 1;
             if thorough {
                 for c in 0..n {
+                    if !rng.chance(1, 2) {
+                        continue;
+                    }
                     run.history(&mut rng, &[Call::Add(vec![a]), Call::Add(vec![b]), Call::Add(vec![c])], "exh3");
                     exhaustive += 1;
                 }
@@ -404,12 +414,12 @@ fn main() {
     // --- replacements on top of an accepted core with descendants at distance 1 and 2
     // (root, child, grandchild, partial, page, component provider): every pool descriptor as
     // one replacement, and every pair of the same-name variants as two successive replacements
-    let core = vec![0usize, 2, 27, 4, 5, 6];
+    let core = vec![0usize, 2, 27, 4, 5, 6, 30, 34];
     for r in 0..n {
         run.history(&mut rng, &[Call::Add(core.clone()), Call::Add(vec![r])], "replace1");
         run.history(&mut rng, &[Call::Add(vec![0]), Call::Add(vec![2]), Call::Add(vec![27]), Call::Add(vec![r])], "replace1");
     }
-    let variants = [0usize, 1, 25, 28, 2, 26, 27, 29, 19, 3];
+    let variants = [0usize, 1, 25, 28, 2, 26, 27, 29, 19, 3, 31, 32, 33];
     for a in variants {
         for b in variants {
             run.history(&mut rng, &[Call::Add(core.clone()), Call::Add(vec![a]), Call::Add(vec![b])], "replace2");
@@ -422,7 +432,7 @@ fn main() {
     // --- random histories, length <= 12, batches of 1..3, autoescape interleaved
     let k = if thorough { 4000 } else { 500 };
     // descriptors that make an accepted core, so that histories do not fail all the way
-    let good = [0usize, 1, 2, 4, 5, 6, 24, 25, 26, 27, 28, 29];
+    let good = [0usize, 1, 2, 4, 5, 6, 24, 25, 26, 27, 28, 29, 30, 31, 32, 34];
     for _ in 0..k {
         let len = 2 + rng.below(11);
         let mut calls = vec![];
@@ -443,7 +453,7 @@ fn main() {
 
     let Run { sink, mut meta, calls_ok, calls_err, fresh_compared, child_observations, .. } = run;
     meta.extra.insert("exhaustive_histories".into(), json!(exhaustive));
-    meta.extra.insert("exhaustive_space".into(), json!(format!("all histories of <= {} single-template add calls over the {} pool descriptors + all two-template batches", if thorough { 3 } else { 2 }, n)));
+    meta.extra.insert("exhaustive_space".into(), json!(format!("all histories of <= 2 single-template add calls over the {} pool descriptors + all two-template batches{}", n, if thorough { " + half of all 3-call histories (sampled)" } else { "" })));
     meta.extra.insert("successful_add_calls".into(), json!(calls_ok));
     meta.extra.insert("failing_add_calls_by_kind".into(), json!(calls_err));
     meta.extra.insert("fresh_instance_comparisons".into(), json!(fresh_compared));
